@@ -74,3 +74,6 @@ Qed.
 Theorem status_shapes evs s1 s2 ids : shape_ok s1 ids -> shape_ok s2 ids -> all_int64 ids -> no_raise [A_status] evs ->
   gen_particle_status evs (v_ids s1 ids) = gen_particle_status evs (v_ids s2 ids).
 Proof. intros H1 H2 H64 Hnr. rewrite !particle_status_ok by assumption. reflexivity. Qed.
+
+(* data of the non-vacuity example in Properties/C03.v: a particle with identity i and status st, nothing else set *)
+Definition ex_p (i : Z) (st : Fval) : pobs := mkP i (fun a => match a with A_status => Ret st | _ => Ret NaN end).
